@@ -124,6 +124,15 @@ Theorem C13_relink_joins_the_group : forall names s,
 Proof. exact relink_group_correct. Qed.
 Print Assumptions C13_relink_joins_the_group.
 
+(* the link structure after a run: once the transfers have left the source file's bytes [c] under every name of the group that is
+   there (C01 / C13_updates_do_not_leak), the pass puts all of them on ONE inode -- whatever inodes they had before *)
+Theorem C13_group_ends_on_one_inode : forall names s c,
+  NoDup names -> (forall p i, In p names -> d_names s p = Some i -> d_store s i = c) ->
+  let s' := relink_group s [] names in
+  forall p q i j, In p names -> In q names -> d_names s' p = Some i -> d_names s' q = Some j -> i = j.
+Proof. exact relink_group_one_inode. Qed.
+Print Assumptions C13_group_ends_on_one_inode.
+
 (* ... and a name of the group is only ever pointed at an inode that a name of the same group had before: the pass creates no
    link between two groups, nor between a group and a file outside it *)
 Theorem C13_relink_stays_inside_the_group : forall names s q i,
